@@ -1832,6 +1832,13 @@ class Analyzer:
             tmp = env.get('$tmp') or {}
             va = tmp.get(a) if a in tmp else self.peek(env, a)
             vb = tmp.get(b) if b in tmp else self.peek(env, b)
+            # pointer known non-null (null) compared with the null constant
+            if op in ('==', '!='):
+                for x_, vx_, y_ in ((a, va, b), (b, vb, a)):
+                    yn = self.ex[self.F.strip_casts(y_)]
+                    if vx_.nn is not None and self.ex[x_].get('t', '').endswith('*') and yn['k'] == 'int' and yn.get('v') == 0:
+                        if (op == '==') == (vx_.nn is True):
+                            return None
             # a strict comparison of two ranges that cannot satisfy it (floating values have no "minus one": the interval
             # restriction below keeps the touching endpoint, so the edge has to be cut here)
             if op in ('<', '>') and not va.is_bottom() and not vb.is_bottom():
